@@ -72,6 +72,16 @@ def run(repo, tier) -> Result:
     check_sqrt("C09", res, repo, cas, signs)
     check_truth("C09", res, repo, cas, signs)
     check_wire("C09", res, repo, cas)
+    # the resolver every formula reads through must not drop a legitimate 0 (volume == 0 -> None -> TypeError in VWAP/OBV)
+    from .c20 import truthiness_sites
+
+    for fn in ("reading_by_index", "reading_by_candle", "_nested_indicator", "reading_period", "candles_sum"):
+        f = repo.func("hexital.utils.candles", fn)
+        sites = truthiness_sites(f.node)
+        if not sites:
+            res.ok("R-TRUTH", {"function": f.qualname, "why": "no looked-up value in boolean context"})
+        for sx in sites:
+            res.fail("R-TRUTH", finding("C09", "R-TRUTH", f, sx, "the reading resolver tests a looked-up value by truthiness / `or`: a candle field or reading equal to 0 resolves to None and the formulas raise TypeError"))
     check_analysis_divisions("C09", res, repo)
     check_amorph_arity("C09", res, repo)
     return res
